@@ -283,10 +283,10 @@ enum Placement {
     Below,     // lower limit clearly outside
     Above,     // upper limit clearly outside
     Both,      // both clearly outside
-    Absurd,    // +-1e300 (for conversions that are not evaluated)
+    Absurd,    // +-BIG (for conversions that are not evaluated)
 }
 
-const BIG: f64 = 1e300;
+const BIG: f64 = 1e306;
 
 /// (declared lower, declared upper, error expected); None if this placement is not applicable
 fn place(range: Option<(f64, f64)>, p: Placement, frac: f64, margin_rel: f64, exact_ok: bool) -> Option<(f64, f64, bool)> {
@@ -306,7 +306,8 @@ fn place(range: Option<(f64, f64)>, p: Placement, frac: f64, margin_rel: f64, ex
     if lo.is_nan() || hi.is_nan() {
         return None;
     }
-    // bounds beyond +-1e300 (or infinite) are treated as unbounded: no outside placement on that side
+    // bounds beyond +-BIG = 1e306 (or infinite) are treated as unbounded: no outside placement on that side (1e306 since the repair d22d1f8 of
+    // KF-C12-1; it was 1e300: the range of FLOAT64_IEEE under LINEAR with |a| = 1e-6 is +-1.8e302 and gets outside placements now - seed C12-g)
     let lo_unb = lo < -BIG;
     let hi_unb = hi > BIG;
     let clo = lo.max(-BIG);
